@@ -107,6 +107,11 @@ func patchTreasuresOneSwamp(ctx context.Context, g Gateway, in *hydrapb.PatchTre
 		// Hold capMu for the whole batch so concurrent Cap-bearing flows
 		// observe consistent budget arithmetic.
 		defer lockHolder()
+		defer func() {
+			if verifhook.Enabled {
+				verifhook.Point("cap.unlocking", swampObj)
+			}
+		}()
 		budgetLeft = bodyCapMax - currentMatching
 		if budgetLeft < 0 {
 			budgetLeft = 0
@@ -147,6 +152,9 @@ func patchTreasuresOneSwamp(ctx context.Context, g Gateway, in *hydrapb.PatchTre
 			verifhook.Point("cap.patch", swampObj, patch.GetKey(), capPredicate != nil)
 		}
 		res, perr := swampObj.PatchFields(patch.GetKey(), ops, cond, opts)
+		if verifhook.Enabled {
+			verifhook.Point("cap.patched", swampObj, patch.GetKey(), capPredicate != nil, int(res.Status), perr)
+		}
 		if perr != nil {
 			// Internal error surfaces as INTERNAL_ERROR status, not as a
 			// gRPC-level error: we still want to return per-key results
@@ -209,6 +217,9 @@ func capPreCount(swampObj swamp.Swamp, predicate func(treasureForCount) bool) (i
 		verifhook.Point("cap.mid", swampObj)
 	}
 	count := swampObj.CountMatchingTreasures(adapted)
+	if verifhook.Enabled {
+		verifhook.Point("cap.counted", swampObj, count)
+	}
 	return count, swampObj.UnlockCapMu
 }
 
